@@ -178,10 +178,14 @@ class PermutationReciprocalTransformer(BaseReciprocalTransformer):
         self._check_is_fitted()
         if len(y.shape) == 1 or y.dtype in (numpy.str_, numpy.int32, numpy.int64):
             # permutes classes
-            yp = y.copy().ravel()
+            yp = y.ravel()
             num = numpy.issubdtype(y.dtype, numpy.floating)
+            # the permuted values may not fit into y.dtype (integer codes
+            # into an array of strings), the output type is inferred
+            res = []
             for i in range(len(yp)):
                 if num and numpy.isnan(yp[i]):
+                    res.append(yp[i])
                     continue
                 if yp[i] not in self.permutation_:
                     if self.closest:
@@ -193,8 +197,8 @@ class PermutationReciprocalTransformer(BaseReciprocalTransformer):
                         )
                 else:
                     cl = yp[i]
-                yp[i] = self.permutation_[cl]
-            return X, yp.reshape(y.shape)
+                res.append(self.permutation_[cl])
+            return X, numpy.array(res).reshape(y.shape)
         else:
             # y is probababilies or raw score
             assert len(y.shape) == 2, f"yp should be a matrix but has shape {y.shape}."
